@@ -486,12 +486,21 @@ func (ie IfExpression) printElse(out *PrintState) {
 	} else {
 		out.Print(" else ")
 	}
-	if len(ie.Alternative.Statements) == 1 && ie.Alternative.Statements[0].Value().Type() == token.IF {
+	stmts := ie.Alternative.Statements
+	if out.Compact { // comments aren't printed in compact mode: else {if c {d} /* x */} is else if c {d} there.
+		stmts = nil
+		for _, st := range ie.Alternative.Statements {
+			if !isComment(st) {
+				stmts = append(stmts, st)
+			}
+		}
+	}
+	if len(stmts) == 1 && stmts[0].Value().Type() == token.IF {
 		// else if
 		if out.Compact {
 			out.Print(" ")
 		}
-		ie.Alternative.Statements[0].PrettyPrint(out)
+		stmts[0].PrettyPrint(out)
 		return
 	}
 	ie.Alternative.PrettyPrint(out)
